@@ -2,6 +2,8 @@ import Chain33Model.Model.C16
 import Chain33Model.Proofs.C16Enc
 import Chain33Model.Proofs.C17Chain
 import Chain33Model.Proofs.C17Create
+import Chain33Model.Proofs.C17Fee
+import Chain33Model.Props.C16
 /-!
 C17 — Transaction groups are tamper-evident.  Property theorems only
 (model: `Model/C16.lean` group section; helper lemmas: `Proofs/C17Chain.lean`, `Proofs/C17Create.lean`).
@@ -159,26 +161,30 @@ theorem realFee_eq (t : Transaction) (minFee : Int)
   unfold realFee
   simp only [show ¬ (size t + (if t.signature.isNone then 300 else 0) > MaxTxSize) from by omega, if_false]
 
-/-- full statement of "a created and signed group passes validation": with the fee rate used at
-creation, every member's signature adding at most the 300 bytes `GetRealFee` reserves, matching
-chain id and a head fee within `maxFee`, `Check` accepts the signed group. -/
-def CreatedGroupChecks : Prop :=
-  ∀ (H : Bytes → Bytes) (c : CheckCfg) (rate maxFee : Int) (txs g : List Transaction)
-    (sigs : Transaction → Option Signature),
-    createGroupWith H txs rate = .ok g → lastNextNil txs → Int.ofNat txs.length ≤ MaxTxGroupSize →
-    0 ≤ rate →
-    (∀ x ∈ txs, x.signature = none) →
-    (∀ x ∈ g, ((sigs x).map (fun s => (encodeSig s).length + 3)).getD 0 ≤ 300) →
-    firstErr (memberCheck c) g = .ok () → paraCheck c.paraFork g = .ok () →
-    (∀ x ∈ g, ¬ (x.fee > maxFee ∧ maxFee > 0 ∧ c.checkFork)) →
-    groupCheckWith H c rate maxFee (g.map (fun t => { t with signature := sigs t })) = .ok ()
+/-- **a created group, signed by its members, passes `Check`** with the fee rate used at creation.
+Hypotheses (each one is a stated side condition of the client library's contract, none hidden):
+hash outputs have one length (32 bytes for SHA-256); the last input has no stale `Next`; at most 20
+members; non-negative rate and input fees, inputs unsigned; the resulting fees fit int64; every
+member's signature field adds at most the 300 bytes `GetRealFee` reserves for an unsigned
+transaction (true for the built-in single-key schemes; a larger signature can push a member over a
+1000-byte fee step); chain id / para rules / `maxFee` hold for the created members (they do not
+depend on signatures). -/
+theorem created_group_checks (H : Bytes → Bytes) (hlenH : ∀ x y, (H x).length = (H y).length)
+    (c : CheckCfg) (rate maxFee : Int) (txs g : List Transaction) (sigs : Transaction → Option Signature)
+    (hc : createGroupWith H txs rate = .ok g) (hl : lastNextNil txs)
+    (hn : Int.ofNat txs.length ≤ MaxTxGroupSize) (hr : 0 ≤ rate)
+    (hu : ∀ x ∈ txs, x.signature = none) (hf : ∀ x ∈ txs, 0 ≤ x.fee)
+    (hfee : ∀ x ∈ g, x.fee < 2 ^ 63)
+    (hs : ∀ x ∈ g, ∀ s, sigs x = some s → (encodeSig s).length + 3 ≤ 300)
+    (hm : firstErr (memberCheck c) g = .ok ()) (hp : paraCheck c.paraFork g = .ok ())
+    (hmax : ∀ x ∈ g, ¬ (x.fee > maxFee ∧ maxFee > 0 ∧ c.checkFork)) :
+    groupCheckWith H c rate maxFee (g.map (withSig sigs)) = .ok () :=
+  createGroup_checks H hlenH c rate maxFee txs g sigs hc hl hn hr hu hf hfee hs hm hp hmax
 
-/-- ◐ the part proved for all inputs: the created group — signed with arbitrary signatures — is
-correctly chained (header = hash of the head, common header, counts, next links) and its non-head
-members carry fee 0; what is *not* proved in Lean is the fee-sum inequality (the creation-time size
-estimate `+300`/`Fee = 1<<62` dominates the size of the signed members), which the correspondence
-run checks on every generated group instead. -/
-theorem created_group_checks_partial (H : Bytes → Bytes) (txs g : List Transaction) (rate : Int)
+/-- the structural part needs no side condition on sizes or fees: the created group — with arbitrary
+signatures attached — is correctly chained (header = hash of the head, common header, counts,
+next links), has the input's length, and its non-head members carry fee 0. -/
+theorem created_group_chained (H : Bytes → Bytes) (txs g : List Transaction) (rate : Int)
     (sigs : Transaction → Option Signature)
     (hc : createGroupWith H txs rate = .ok g) (hl : lastNextNil txs)
     (hn : Int.ofNat txs.length ≤ MaxTxGroupSize) :
@@ -196,6 +202,21 @@ theorem created_group_checks_partial (H : Bytes → Bytes) (txs g : List Transac
     simp only [List.map] at this
     simp only [List.length_cons] at h1
     rw [← h1, ← this]
+
+/-- **… and passes `CheckSign`**: members signed (each with its own key) under a scheme with
+`verify (sign …) = true` whose type is enabled at the height all verify. -/
+theorem signed_group_checkSign (S : Scheme) (r : Registry) (d : Driver)
+    (validate : String → Bytes → Bytes → Bytes → VOut) (ty : Int) (h : Int)
+    (sk : Transaction → S.SK) (g : List Transaction)
+    (hreg : driverByType r (extractCryptoID ty) = some d) (hen : enabledAt d h = true)
+    (hval : ∀ m p s, validate d.name m p s = if S.verify m p s then VOut.ok else VOut.fail) :
+    groupCheckSign r validate h (g.map (fun t => signTx S ty (sk t) t)) = true := by
+  unfold groupCheckSign
+  rw [List.all_eq_true]
+  intro x hx
+  simp only [List.mem_map] at hx
+  obtain ⟨t, _, rfl⟩ := hx
+  exact sign_verify S r d validate ty h (sk t) t hreg hen hval
 
 /-- `Transactions.CheckSign`: a group verifies exactly when every member verifies. -/
 theorem group_checkSign_all (r : Registry) (validate : String → Bytes → Bytes → Bytes → VOut)
@@ -225,5 +246,19 @@ def exCreatedPasses : Bool :=
   | .error _ => false
 
 example : exCreatedPasses = true ∧ lastNextNil exIn := ⟨by decide +kernel, rfl⟩
+
+/-- the side conditions of `created_group_checks` are met by `exIn` / `toyH` / `exCfg`. -/
+example : (∀ x y, (toyH x).length = (toyH y).length) ∧ Int.ofNat exIn.length ≤ MaxTxGroupSize ∧
+    (∀ x ∈ exIn, x.signature = none) ∧ (∀ x ∈ exIn, 0 ≤ x.fee) :=
+  ⟨fun _ _ => rfl, by decide, by decide, by decide⟩
+
+/-- the members of the created example group are in range (hypothesis `WF` of `group_binding`). -/
+def exCreatedInRange : Bool :=
+  match createGroupWith toyH exIn 100 with
+  | .ok g => g.all (fun t => decide (I64 t.fee) && decide (I64 t.expire) && decide (I64 t.nonce) &&
+      decide (I32 t.groupCount) && decide (I32 t.chainID) && t.signature.isNone)
+  | .error _ => false
+
+example : exCreatedInRange = true := by decide +kernel
 
 end C17
